@@ -89,6 +89,8 @@ BuildSysv(names, nbucket, little) ==
        \o CatAll([i \in 1..Len(names) |-> W32(r[2][i], little)], Len(names))
 
 \* ---- the instance -----------------------------------------------------------------------------------
+HdrEdits == IF Kind = "gnu" THEN {"none", "nbloom0", "nbucket0", "nshift32", "nshift33", "nshift64", "nshiftmax", "symoffmax", "symoff0"}
+            ELSE {"none", "nbucket0", "nchain0", "nchainmax"}
 VARIABLE c
 Init == c = [stage |-> 0]
 NameSets == { s \in SUBSET (1..NP) : Cardinality(s) <= MaxNames }
@@ -96,8 +98,10 @@ RECURSIVE S2S(_)
 S2S(S) == IF S = {} THEN <<>> ELSE LET x == CHOOSE y \in S : \A z \in S : y <= z IN <<x>> \o S2S(S \ {x})
 Next == \/ c.stage = 0 /\ \E k \in Encs, nb \in Buckets, so \in SymOffs :
                              c' = [stage |-> 1, enc |-> k, nbucket |-> nb, symoff |-> so]
-        \/ c.stage = 1 /\ \E s \in NameSets, nbl \in (IF Kind = "gnu" THEN Blooms ELSE {1}), sh \in (IF Kind = "gnu" THEN Shifts ELSE {0}) :
-                             c' = [c EXCEPT !.stage = 2] @@ [names |-> s, nbloom |-> nbl, shift |-> sh]
+        \/ c.stage = 1 /\ \E s \in NameSets, nbl \in (IF Kind = "gnu" THEN Blooms ELSE {1}), sh \in (IF Kind = "gnu" THEN Shifts ELSE {0}),
+                               ed \in HdrEdits :
+                             /\ (ed # "none" => Cardinality(s) = MaxNames /\ nbl = 1 /\ sh = 0)   \* header edits on one slice of the largest tables
+                             /\ c' = [c EXCEPT !.stage = 2] @@ [names |-> s, nbloom |-> nbl, shift |-> sh, edit |-> ed]
 
 Class == EncOf(c.enc)[1]
 Little == EncOf(c.enc)[2]
@@ -105,18 +109,38 @@ Little == EncOf(c.enc)[2]
 Raw == <<<<>>>> \o [i \in 1..(c.symoff - 1) |-> <<117>>] \o [i \in 1..Cardinality(c.names) |-> Pool[S2S(c.names)[i]]]
 Names == IF Kind = "gnu" THEN GnuOrder(Raw, c.symoff, c.nbucket) ELSE Raw
 First == IF Kind = "gnu" THEN c.symoff ELSE 1
-HashB == IF Kind = "gnu" THEN BuildGnu(Names, c.symoff, c.nbucket, c.nbloom, c.shift, Class, Little) ELSE BuildSysv(Names, c.nbucket, Little)
+\* header fields overwritten AFTER a well-formed build (C01/C16: lookups on such tables must be total), with every
+\* bloom bit set so that the lookup gets past the filter
+PutAt(b, off, w) == [i \in 1..Len(b) |-> IF i > off /\ i <= off + Len(w) THEN w[i - off] ELSE b[i]]
+MaxU32 == <<255, 255, 255, 255>>
+Edited(b) ==
+    LET L == Little
+        ws == IF Class = 32 THEN 4 ELSE 8
+        ones == IF Kind = "gnu" THEN [i \in 1..Len(b) |-> IF i > 16 /\ i <= 16 + ws * c.nbloom THEN 255 ELSE b[i]] ELSE b
+    IN CASE c.edit = "none" -> b
+         [] c.edit = "nbloom0" -> PutAt(ones, 8, W32(0, L))
+         [] c.edit = "nbucket0" -> PutAt(ones, 0, W32(0, L))
+         [] c.edit = "nshift32" -> PutAt(ones, 12, W32(32, L))
+         [] c.edit = "nshift33" -> PutAt(ones, 12, W32(33, L))
+         [] c.edit = "nshift64" -> PutAt(ones, 12, W32(64, L))
+         [] c.edit = "nshiftmax" -> PutAt(ones, 12, MaxU32)
+         [] c.edit = "symoffmax" -> PutAt(ones, 4, MaxU32)
+         [] c.edit = "symoff0" -> PutAt(ones, 4, W32(0, L))
+         [] c.edit = "nchain0" -> PutAt(b, 4, W32(0, L))
+         [] c.edit = "nchainmax" -> PutAt(b, 4, MaxU32)
+HashB == Edited(IF Kind = "gnu" THEN BuildGnu(Names, c.symoff, c.nbucket, c.nbloom, c.shift, Class, Little) ELSE BuildSysv(Names, c.nbucket, Little))
 SymB == SymTabOf(Names, Class, Little)
 StrB == StrTabOf(Names)
 Find(q) == IF Kind = "gnu" THEN GnuFind(Class, Little, HashB, SymB, StrB, q) ELSE SysvFind(Class, Little, HashB, SymB, StrB, q)
 Queries == [i \in 1..NP |-> Pool[i]] \o << <<117>>, <<99, 99>> >>
 
 Prop_Hash ==
-    /\ IF Kind = "gnu" THEN GnuWellFormed(Class, Little, HashB, SymB, StrB) ELSE SysvWellFormed(Class, Little, HashB, SymB, StrB)
+    /\ c.edit = "none" => IF Kind = "gnu" THEN GnuWellFormed(Class, Little, HashB, SymB, StrB) ELSE SysvWellFormed(Class, Little, HashB, SymB, StrB)
     /\ \A i \in 1..Len(Queries) :
          LET q == Queries[i] r == Find(q)
-         IN /\ Sound(Class, Little, SymB, StrB, q, r)
-            /\ Complete(Class, Little, SymB, StrB, q, First, r)
+         IN /\ Sound(Class, Little, SymB, StrB, q, r)                                     \* any table bytes
+            /\ c.edit = "none" => Complete(Class, Little, SymB, StrB, q, First, r)        \* well-formed tables
+            /\ r.out \in {"ok", "none", "err"}
 
 Emit == PrintT(ToJson([ops |->
           << [op |-> "session", family |-> "mc-hash"],
@@ -125,7 +149,7 @@ Emit == PrintT(ToJson([ops |->
           [i \in 1..Len(Queries) |->
              LET r == Find(Queries[i])
              IN [op |-> IF Kind = "gnu" THEN "gnu_find" ELSE "sysv_find", class |-> Class, es |-> IF Little THEN "LE" ELSE "AnyB",
-                 hashslot |-> "h", symslot |-> "sy", strslot |-> "st", name |-> Queries[i], wf |-> TRUE, first |-> First,
+                 hashslot |-> "h", symslot |-> "sy", strslot |-> "st", name |-> Queries[i], wf |-> (c.edit = "none"), first |-> First,
                  exp |-> IF r.out = "ok" THEN [out |-> "ok", idx |-> r.idx, sym |-> r.sym] ELSE [out |-> r.out]]]]))
 Inv == c.stage = 2 => (Prop_Hash /\ Emit)
 =============================================================================
